@@ -55,6 +55,39 @@ pub mod events {
         static EVENTS: RefCell<HashMap<&'static str, u64>> =
             RefCell::new(HashMap::new());
         static PANICS: RefCell<Vec<String>> = const { RefCell::new(Vec::new()) };
+        static EDGES: RefCell<Vec<((u128, u128), (u128, u128))>> =
+            const { RefCell::new(Vec::new()) };
+        static FIRST_CYCLE: ::std::cell::Cell<Option<usize>> =
+            const { ::std::cell::Cell::new(None) };
+    }
+
+    /// Record that the computing query `caller` registered `callee` as a
+    /// callee (ids are (stable type id, key hash)); in registration order.
+    pub fn edge(caller: (u128, u128), callee: (u128, u128)) {
+        EDGES.with(|e| e.borrow_mut().push((caller, callee)));
+    }
+
+    /// A dependency cycle was detected; remembers how many callee
+    /// registrations had been recorded at the first detection.
+    pub fn cycle_detected() {
+        FIRST_CYCLE.with(|c| {
+            if c.get().is_none() {
+                c.set(Some(edge_count()));
+            }
+        });
+    }
+
+    /// Number of callee registrations at the first cycle detection since the
+    /// last `take_edges` / `reset`.
+    pub fn first_cycle_edges() -> Option<usize> { FIRST_CYCLE.with(|c| c.get()) }
+
+    /// Number of callee registrations recorded so far.
+    pub fn edge_count() -> usize { EDGES.with(|e| e.borrow().len()) }
+
+    /// All callee registrations recorded since the last call.
+    pub fn take_edges() -> Vec<((u128, u128), (u128, u128))> {
+        FIRST_CYCLE.with(|c| c.set(None));
+        EDGES.with(|e| ::std::mem::take(&mut *e.borrow_mut()))
     }
 
     /// Increment the named counter (per OS thread, i.e. per exploration).
@@ -69,6 +102,8 @@ pub mod events {
     pub fn reset() {
         EVENTS.with(|e| e.borrow_mut().clear());
         PANICS.with(|e| e.borrow_mut().clear());
+        EDGES.with(|e| e.borrow_mut().clear());
+        FIRST_CYCLE.with(|c| c.set(None));
     }
 
     /// Record a panic that was swallowed by a detached task.
